@@ -271,3 +271,209 @@ Definition check_case (fixed : bool) (c : tb_case) : bool :=
      | Some (io, oo), Some (io', oo') => zlist_eqb io io' && zlist_eqb oo oo'
      | Some _, None => false
      end.
+
+(* ==== Specification vocabulary (independent of the offset arrays) ==== *)
+
+(* l[a:b] for 0 <= a, b; and l[k] *)
+Definition sub {A} (l : list A) (a b : Z) : list A := firstn (Z.to_nat (b - a)) (skipn (Z.to_nat a) l).
+Definition from {A} (l : list A) (a : Z) : list A := skipn (Z.to_nat a) l.
+Definition znth {A} (l : list A) (k : Z) (d : A) : A := nth (Z.to_nat k) l d.
+
+(* applying one patch / a list of patches sorted by position directly (the last one first, so that the
+   positions of the earlier ones stay valid); a patch here is (start, end, new) *)
+Definition apply_patch {A} (l : list A) (s e : Z) (new : list A) : list A := sub l 0 s ++ new ++ from l e.
+Fixpoint apply_sorted {A} (l : list A) (ps : list (Z * Z * list A)) : list A :=
+  match ps with
+  | [] => l
+  | (s, e, new) :: rest => apply_patch (apply_sorted l rest) s e new
+  end.
+Definition pcore (p : patch) : Z * Z * text := (p_start p, p_end p, p_new p).
+
+(* provenance: where a character of an output comes from: None = generated (patch text, str part),
+   Some (path, i) = character i of the Text reached by `path` (the part indexes chosen at the Combiners
+   on the way down; Replacers add nothing to the path) *)
+Definition origin := option (list nat * Z).
+Definition cell := (Z * origin)%type.
+Definition generated (t : text) : list cell := map (fun c => (c, None)) t.
+Fixpoint annot (t : text) (i : Z) : list cell :=
+  match t with
+  | [] => []
+  | c :: r => (c, Some ([], i)) :: annot r (i + 1)
+  end.
+Definition push (k : nat) (c : cell) : cell :=
+  (fst c, match snd c with Some (path, i) => Some (k :: path, i) | None => None end).
+Definition bump (c : cell) : cell :=
+  (fst c, match snd c with Some (k :: path, i) => Some (S k :: path, i) | o => o end).
+Definition acore (p : patch) : Z * Z * list cell := (p_start p, p_end p, generated (p_new p)).
+
+(* the output with provenance, by applying the patches directly *)
+Fixpoint prender (b : builder) : list cell :=
+  match b with
+  | BText t _ => annot t 0
+  | BReplacer inner ps => apply_sorted (prender inner) (map acore (sort_patches ps))
+  | BCombiner ps => prender_parts ps
+  end
+with prender_parts (ps : parts) : list cell :=
+  match ps with
+  | PNil => []
+  | PLit t rest => generated t ++ map bump (prender_parts rest)
+  | PSub b rest => map (push 0) (prender b) ++ map bump (prender_parts rest)
+  end.
+
+(* the Text (text, value) at the end of a path *)
+Fixpoint leaf_at (b : builder) (path : list nat) : option (text * Z) :=
+  match b with
+  | BText t v => match path with [] => Some (t, v) | _ => None end
+  | BReplacer inner _ => leaf_at inner path
+  | BCombiner ps => match path with [] => None | k :: path' => leaf_parts ps k path' end
+  end
+with leaf_parts (ps : parts) (k : nat) (path : list nat) : option (text * Z) :=
+  match ps with
+  | PNil => None
+  | PLit _ rest => match k with O => None | S k' => leaf_parts rest k' path end
+  | PSub b rest => match k with O => leaf_at b path | S k' => leaf_parts rest k' path end
+  end.
+
+(* well-formed patch list for text t, from position ip on: in sorted() order the patches are inside the
+   text, do not overlap, and their old_text is the text they replace *)
+Fixpoint wf_from (t : text) (ip : Z) (ps : list patch) : Prop :=
+  match ps with
+  | [] => 0 <= ip <= len t
+  | p :: rest => 0 <= ip <= p_start p /\ p_start p <= p_end p <= len t /\
+                 p_old p = sub t (p_start p) (p_end p) /\ wf_from t (p_end p) rest
+  end.
+
+Fixpoint wf_builder (b : builder) : Prop :=
+  match b with
+  | BText _ _ => True
+  | BReplacer inner ps =>
+      wf_builder inner /\ match render inner with Ok t => wf_from t 0 (sort_patches ps) | _ => False end
+  | BCombiner ps => wf_parts ps
+  end
+with wf_parts (ps : parts) : Prop :=
+  match ps with
+  | PNil => True
+  | PLit _ rest => wf_parts rest
+  | PSub b rest => wf_builder b /\ wf_parts rest
+  end.
+
+(* Hypothesis of the theorem about the unchanged code (fixed=false): following the range [s,e) of b's
+   output down the nesting as map_back_patch does, no Replacer on the way has an offset-table entry
+   (besides the initial 0) whose output offset is exactly the range end.  Such an entry at the end of a
+   range whose last character is copied exists exactly when a patch that deletes text ends there. *)
+Fixpoint no_entry_at_end (b : builder) (s e : Z) : Prop :=
+  match b with
+  | BText _ _ => True
+  | BReplacer inner ps =>
+      match bind (render inner) (fun t => replacer_init t ps) with
+      | Ok (io, oo, _) =>
+          ~ In e (tl oo) /\ no_entry_at_end inner (get_input_pos io oo s) (get_input_pos io oo e)
+      | _ => True
+      end
+  | BCombiner ps =>
+      match render_parts ps with
+      | Ok ts =>
+          let offsets := part_offsets 0 ts in
+          let idx := bisect_right offsets s - 1 in
+          let off := py_index offsets idx in
+          no_entry_parts ps (Z.to_nat idx) (s - off) (e - off)
+      | _ => True
+      end
+  end
+with no_entry_parts (ps : parts) (k : nat) (s e : Z) : Prop :=
+  match ps with
+  | PNil => True
+  | PLit _ rest => match k with O => True | S k' => no_entry_parts rest k' s e end
+  | PSub b rest => match k with O => no_entry_at_end b s e | S k' => no_entry_parts rest k' s e end
+  end.
+
+(* position of an output character among the parts of a Combiner: in_part ts k s = character s of the
+   concatenation lies in part k;  off_of ts k = where part k starts *)
+Fixpoint in_part (ts : list text) (k : nat) (s : Z) : Prop :=
+  match ts, k with
+  | [], _ => False
+  | t :: _, O => 0 <= s < len t
+  | t :: rest, S k' => in_part rest k' (s - len t)
+  end.
+Fixpoint off_of (ts : list text) (k : nat) : Z :=
+  match ts, k with
+  | t :: rest, S k' => len t + off_of rest k'
+  | _, _ => 0
+  end.
+Fixpoint part_is_lit (ps : parts) (k : nat) : bool :=
+  match ps with
+  | PNil => false
+  | PLit _ rest => match k with O => true | S k' => part_is_lit rest k' end
+  | PSub _ rest => match k with O => false | S k' => part_is_lit rest k' end
+  end.
+
+(* ---- editing the source with a mapped-back patch and re-deriving the builders (map_back_commutes) ----
+   When characters [a,b) of a Replacer's input are replaced by a text of length b-a+delta, its patches
+   before the range stay, those after it move by delta, those inside it (they edited text that is
+   replaced now) go. *)
+Definition shiftp (delta : Z) (p : patch) : patch := (p_start p + delta, p_end p + delta, p_old p, p_new p).
+Definition transport (ps : list patch) (a b delta : Z) : list patch :=
+  filter (fun p => p_end p <=? a) ps ++ map (shiftp delta) (filter (fun p => b <=? p_start p) ps).
+
+(* the builder after the edit: follows the patch down exactly as map_back_patch does; the Text reached gets
+   the patch applied.  (On a constructor error the builder is returned unchanged.) *)
+Fixpoint rebuild (fixed : bool) (b : builder) (p : patch) : builder :=
+  match b with
+  | BText t v => BText (apply_patch t (p_start p) (p_end p) (p_new p)) v
+  | BReplacer inner ps =>
+      match bind (render inner) (fun t => bind (replacer_init t ps) (fun r => Ok (t, r))) with
+      | Ok (in_text, (io, oo, _)) =>
+          let a := get_input_pos io oo (p_start p) in
+          let b' := input_end fixed io oo (p_start p) (p_end p) in
+          BReplacer (rebuild fixed inner (make_patch in_text a b' (p_new p)))
+                    (transport (sort_patches ps) a b' (len (p_new p) - (b' - a)))
+      | _ => b
+      end
+  | BCombiner ps =>
+      match render_parts ps with
+      | Ok ts =>
+          let offsets := part_offsets 0 ts in
+          let idx := bisect_right offsets (p_start p) - 1 in
+          let off := py_index offsets idx in
+          BCombiner (rebuild_parts fixed ps (Z.to_nat idx) (p_start p - off, p_end p - off, p_old p, p_new p))
+      | _ => b
+      end
+  end
+with rebuild_parts (fixed : bool) (ps : parts) (k : nat) (p : patch) : parts :=
+  match ps with
+  | PNil => PNil
+  | PLit t rest => match k with O => ps | S k' => PLit t (rebuild_parts fixed rest k' p) end
+  | PSub b rest => match k with O => PSub (rebuild fixed b p) rest | S k' => PSub b (rebuild_parts fixed rest k' p) end
+  end.
+
+(* side condition of map_back_commutes: the re-derived patch lists are still in sorted() order (sorted()
+   orders two insertions at one position by their text; they can only meet when the replaced range becomes
+   empty) *)
+Fixpoint transport_sorted (fixed : bool) (b : builder) (p : patch) : Prop :=
+  match b with
+  | BText _ _ => True
+  | BReplacer inner ps =>
+      match bind (render inner) (fun t => bind (replacer_init t ps) (fun r => Ok (t, r))) with
+      | Ok (in_text, (io, oo, _)) =>
+          let a := get_input_pos io oo (p_start p) in
+          let b' := input_end fixed io oo (p_start p) (p_end p) in
+          let ps' := transport (sort_patches ps) a b' (len (p_new p) - (b' - a)) in
+          sort_patches ps' = ps' /\ transport_sorted fixed inner (make_patch in_text a b' (p_new p))
+      | _ => True
+      end
+  | BCombiner ps =>
+      match render_parts ps with
+      | Ok ts =>
+          let offsets := part_offsets 0 ts in
+          let idx := bisect_right offsets (p_start p) - 1 in
+          let off := py_index offsets idx in
+          transport_sorted_parts fixed ps (Z.to_nat idx) (p_start p - off, p_end p - off, p_old p, p_new p)
+      | _ => True
+      end
+  end
+with transport_sorted_parts (fixed : bool) (ps : parts) (k : nat) (p : patch) : Prop :=
+  match ps with
+  | PNil => True
+  | PLit _ rest => match k with O => True | S k' => transport_sorted_parts fixed rest k' p end
+  | PSub b rest => match k with O => transport_sorted fixed b p | S k' => transport_sorted_parts fixed rest k' p end
+  end.
